@@ -288,7 +288,7 @@ Section Width.
 End Width.
 
 (* W1, weak form: no assumption on how recorded sorts are written *)
-Theorem bv_width_sound_weak : forall I g e w s,
+Theorem bv_width_sound_weak_proof : forall I g e w s,
   lookup_agrees I g -> consts_unbound g -> ops_unbound g ->
   Smtlib.bv_width I e = Some w -> w <> (-1)%Z -> type_of g e = Some s ->
   Typing.bv_width s = Some (Z.to_N w) /\ (0 <= w)%Z.
